@@ -20,7 +20,11 @@ PROP = [('InverseMatcher returned','C01'),('RequireMatcher.skip_to_quality','C05
  ('in-memory codec recorded empty','C18'),('add_document() that raised part-way','C08'),('plain-text codec could not write','C10'),
  ('inlinelimit > 1) raised AttributeError','C10'),('inlinelimit > 1) broke term vectors','C10'),
  ('results page over an empty result','C14'),('empty filter (set or Results)','C14'),('collapsing never folded','C14'),
- ('single clause lost its boost','C09'),('partly filled top-N list','C14'),('len() of a limited search undercounted','C01'),('ArrayUnionMatcher dropped matching','C01'),('ReverseWeighting reported lower bounds','C12'),('crashed under FunctionWeighting','C09'),('PL2 and DFree reported quality bounds','C12')]
+ ('single clause lost its boost','C09'),('partly filled top-N list','C14'),('len() of a limited search undercounted','C01'),('ArrayUnionMatcher dropped matching','C01'),('ReverseWeighting reported lower bounds','C12'),('crashed under FunctionWeighting','C09'),('PL2 and DFree reported quality bounds','C12'),
+ ('range over a DATETIME field with text','C16'),('GtLtPlugin raised IndexError','C16'),('doubled prefix operator','C16'),
+ ('inside a parenthesized group crashed','C16'),('starting with two wildcard characters','C16'),('multi-term and Every queries on unknown','C16'),
+ ('range over a field without an analyzer','C16'),('open-ended date range with a fully specified','C16'),('quoted value on a field without an analyzer','C16'),
+ ('impossible date raised TimeError','C16')]
 log = subprocess.check_output(['git','-C','/repo','log','--reverse','--format=%h|%s','173ed2e..HEAD']).decode().strip().split('\n')
 p = '/verif/known_findings.json'
 d = json.load(open(p))
